@@ -23,7 +23,7 @@ KANI = {
     "C09": {"complete": _ROUNDUP + _VU64, "bounded": {}},
     "C10": {"complete": _KEYTRAIT + _VU64 + _HASH_INT, "bounded": dict(_BYTES_CMP)},
     "C12": {"complete": ["u9_xorshift_is_documented_mixer", "u9_hasher_one_chunk", "u9_reference_matches_release_vectors",
-                         "c12_signatures_are_the_documented_ones", "u3_free_list_head_offset"] + _HASH_INT + _VU64, "bounded": dict(_HASH_STR)},
+                         "c12_signatures_are_the_documented_ones", "u3_free_list_head_offset"] + _ROUNDUP + _HASH_INT + _VU64, "bounded": dict(_HASH_STR)},
     "C13": {"complete": ["c13_signatures_pairwise_distinct", "c13_signatures_distinct_except_k2", "c12_signatures_are_the_documented_ones"], "bounded": {}},
     "C14": {"complete": [], "bounded": {"c14_bulk_get_is_elementwise_batch_2": "map <= 1 entry before the call, batch of 2 one-byte keys",
                                          "c14_bulk_delete_is_elementwise_batch_2_distinct": "map <= 1 entry, batch of 2 distinct one-byte keys",
